@@ -349,10 +349,38 @@ func (x *Exec) lookupFunc(key string) *ssa.Function {
 	return nil
 }
 
+// VerifyCaptures checks only the closure frame of a (trusted) contract.
+func (x *Exec) VerifyCaptures(key string) error {
+	c := x.specs.Contracts[key]
+	fn := x.lookupFunc(key)
+	if c == nil || fn == nil || c.Captures == nil {
+		return fmt.Errorf("cannot bind closure-frame contract %s", key)
+	}
+	x.curFunc = key
+	x.curContract = c
+	x.curInputs = nil
+	st := &State{x: x, heap: map[string]Term{}, cells: map[*Cell]Val{}, ghost: map[string]Term{}, declared: map[string]bool{}, interfered: map[string][]Term{}}
+	allowed := map[string]bool{}
+	for _, n := range splitLocs(c.Captures.Src) {
+		allowed[n] = true
+	}
+	for _, fv := range fn.FreeVars {
+		goal := tTrue
+		if !allowed[fv.Name()] {
+			goal = tFalse
+		}
+		x.oblige(st, fmt.Sprintf("%s/captures:%s", key, fv.Name()), "closure-frame", c.Captures.Tags, goal, fn.Pos(), "the function literal captures only "+c.Captures.Src+" (captured: "+fv.Name()+")")
+	}
+	return nil
+}
+
 func (x *Exec) VerifyFunc(key string) (err error) {
 	c := x.specs.Contracts[key]
 	if c == nil {
 		return fmt.Errorf("no contract for %s", key)
+	}
+	if c.Trusted != "" && c.Captures != nil {
+		return x.VerifyCaptures(key)
 	}
 	fnKey := key
 	if i := strings.Index(key, "@"); i >= 0 {
@@ -426,6 +454,21 @@ func (x *Exec) VerifyFunc(key string) (err error) {
 		st.assume(t)
 	}
 	st.entry = st.snap()
+	// closure frame: a function literal may capture only the listed variables (anything else would be hidden,
+	// possibly shared, state of the value it implements)
+	if cp := c.Captures; cp != nil && !x.assumedOnly(cp) {
+		allowed := map[string]bool{}
+		for _, n := range splitLocs(cp.Src) {
+			allowed[n] = true
+		}
+		for _, fv := range fn.FreeVars {
+			goal := tTrue
+			if !allowed[fv.Name()] {
+				goal = tFalse
+			}
+			x.oblige(st, fmt.Sprintf("%s/captures:%s", key, fv.Name()), "closure-frame", cp.Tags, goal, fn.Pos(), "the function literal captures only "+cp.Src+" (captured: "+fv.Name()+")")
+		}
+	}
 	// vacuity guard: the precondition must be satisfiable
 	x.addObligation(st, &Obligation{Name: key + "/cover-requires", Kind: "cover", Goal: tFalse, Desc: "precondition satisfiable (must be sat)"})
 	for _, cv := range c.Covers {
